@@ -268,3 +268,70 @@ Theorem c06_passive_votes_never_count :
     verdict (aggregate lg cfg votes1) = verdict (aggregate lg cfg votes2).
 Proof. exact passive_irrelevant_proof. Qed.
 Print Assumptions c06_passive_votes_never_count.
+
+(* ====================================================================== *)
+(* Histories on ONE QuorumSensing / EmergencyQuorum instance: any sequence of
+   run_vote, add_agent, remove_agent, set_agent_weight, set_strategy,
+   min_voters assignment, update_reliability, update_all_reliability.
+   [trace lg st ops] lists every vote of the history with the instance state it
+   was taken in. *)
+
+(* Every vote's outcome is the aggregation of the ballot cast by the colony of
+   the state reached by the operations before it, under the configuration of
+   that state (nothing is carried over from earlier votes except what the
+   mutators and run_vote write into that state: colony membership, weights,
+   votes_cast / correct_votes / reliability, strategy, threshold, min_voters).
+   All per-ballot theorems above therefore apply to every vote of every history. *)
+Theorem c06_history_vote_is_current_aggregate :
+  forall lg ops st s sc o,
+    In (s, sc, o) (trace lg st ops) ->
+    (exists pre rest, ops = pre ++ OVote sc :: rest /\ s = final_state lg st pre) /\
+    o = aggregate lg (s_cfg s) (collect (voters_of (s_colony s) sc)).
+Proof. exact trace_sound. Qed.
+Print Assumptions c06_history_vote_is_current_aggregate.
+
+(* ... and every run_vote of the history is in the trace, one outcome per vote *)
+Theorem c06_history_every_vote_recorded :
+  forall lg st pre sc rest,
+    In (final_state lg st pre, sc,
+        aggregate lg (s_cfg (final_state lg st pre))
+                  (collect (voters_of (s_colony (final_state lg st pre)) sc)))
+       (trace lg st (pre ++ OVote sc :: rest)).
+Proof. exact trace_complete. Qed.
+Print Assumptions c06_history_every_vote_recorded.
+
+(* lifted: no permit vote in that vote => not PERMIT, whatever happened before *)
+Theorem c06_history_no_permit_no_PERMIT :
+  forall st ops s sc o,
+    In (s, sc, o) (trace false st ops) ->
+    valid_thr (s_cfg s) ->
+    (forall x, In x (voters_of (s_colony s) sc) -> casts Permit x = false) ->
+    is_permit o = false /\ is_reached o = false.
+Proof. exact history_no_permit_proof. Qed.
+Print Assumptions c06_history_no_permit_no_PERMIT.
+
+(* lifted: the THRESHOLD / EmergencyQuorum permit quota is that of the CURRENT
+   colony size [len (s_colony s)] and the CURRENT custom threshold *)
+Theorem c06_history_threshold_uses_current_colony :
+  forall st ops s sc o,
+    In (s, sc, o) (trace false st ops) ->
+    valid_thr (s_cfg s) -> c_strategy (s_cfg s) = ThresholdCount ->
+    let votes := collect (voters_of (s_colony s) sc) in
+    (is_reached o = true <->
+     (c_min_voters (s_cfg s) <= count_kind Permit votes + count_kind Block votes)%Z /\
+     count_criterion (c_custom (s_cfg s)) (len (s_colony s)) (count_kind Permit votes)).
+Proof. exact history_threshold_proof. Qed.
+Print Assumptions c06_history_threshold_uses_current_colony.
+
+(* lifted: a unanimous current colony is PERMIT at any point of any history *)
+Theorem c06_history_unanimous_PERMIT :
+  forall st ops s sc o,
+    In (s, sc, o) (trace false st ops) ->
+    let votes := collect (voters_of (s_colony s) sc) in
+    valid_thr (s_cfg s) -> Forall valid_vote votes -> votes <> [] ->
+    (forall v, In v votes -> v_kind v = Permit) ->
+    (c_min_voters (s_cfg s) <= len (s_colony s))%Z ->
+    unanimous_ok (s_cfg s) votes ->
+    is_permit o = true.
+Proof. exact history_unanimous_proof. Qed.
+Print Assumptions c06_history_unanimous_PERMIT.
